@@ -193,7 +193,7 @@ Proof. repeat split; vm_compute; reflexivity. Qed.
 Definition asset_ok (a : asset) : Prop :=
   htlc_denom_ok (a_denom a) = true
   /\ (exists l, a_limit a = Some l /\ 0 <= l) /\ (exists b, a_tbl a = Some b /\ 0 <= b)
-  /\ (exists f, a_fixed a = Some f) /\ (exists m, a_min a = Some m) /\ (exists x, a_max a = Some x).
+  /\ (exists f, a_fixed a = Some f /\ 0 <= f) /\ (exists m, a_min a = Some m /\ 0 < m) /\ (exists x, a_max a = Some x).
 
 Lemma validate_assets_ok l : forall seen, validate_assets seen l = Ok -> Forall asset_ok l.
 Proof.
@@ -222,9 +222,9 @@ Lemma htlc_denom_valid d : htlc_denom_ok d = true -> denom_valid d = true.
 Proof. unfold htlc_denom_ok, denom_valid. lia. Qed.
 
 Lemma ht_no_panic p o r :
-  validate_ht p = Ok -> ht_path p o = Some r -> res_outcome r <> Abort.
+  validate_ht p = Ok -> ht_small p -> ht_path p o = Some r -> res_outcome r <> Abort.
 Proof.
-  intros Hv Hp. apply validate_assets_ok in Hv.
+  intros Hv Hsm Hp. apply validate_assets_ok in Hv.
   assert (Hnp : forall w, r <> Panic w); [|destruct r; simpl; try discriminate; exfalso; eapply Hnp; reflexivity].
   intros w.
   destruct o as [|d amt sd to lock s bal|d amt s|]; simpl in Hp; [| | |discriminate Hp]; injection Hp as <-.
@@ -237,8 +237,12 @@ Proof.
     rewrite He. discriminate.
   - (* create *)
     unfold ht_create. destruct (find_asset d p) as [a|] eqn:Ef; [|discriminate].
-    destruct (find_asset_ok d p a Hv Ef) as (_ & (lim & El & Hl) & (tbl & Et & Htb) & (fx & Efx) & (mn & Em) & (mx & Ex)).
-    rewrite Em, Ex, Efx, (limit_coin_ok 313 _ lim El Hl), (limit_coin_ok 315 _ tbl Et Htb).
+    destruct (find_asset_ok d p a Hv Ef) as (_ & (lim & El & Hl) & (tbl & Et & Htb) & (fx & Efx & Hfx) & (mn & Em & Hmn) & (mx & Ex)).
+    assert (Hio : int_ok (fx + mn) = true).
+    { unfold find_asset in Ef. apply find_some in Ef. destruct Ef as [Hin _].
+      unfold ht_small in Hsm. rewrite Forall_forall in Hsm. specialize (Hsm a Hin).
+      rewrite Efx, Em in Hsm. simpl in Hsm. unfold int_ok. apply Z.ltb_lt. rewrite Z.abs_eq by lia. exact Hsm. }
+    rewrite Em, Ex, Efx, Hio, (limit_coin_ok 313 _ lim El Hl), (limit_coin_ok 315 _ tbl Et Htb). cbn [negb].
     destruct s as [[[[inc out] cur] tlc]|];
       repeat match goal with |- context [if ?c then _ else _] => destruct c end; discriminate.
   - (* claim, incoming *)
@@ -249,6 +253,14 @@ Proof.
     rewrite (limit_coin_ok 313 _ lim El Hl), (limit_coin_ok 315 _ tbl Et Htb).
     repeat match goal with |- context [if ?c then _ else _] => destruct c end; discriminate.
 Qed.
+
+Definition ht_big : ht_params :=
+  [mkAsset 10 (Some 1000000000) false 3600 (Some 50000000) true 2 (Some (2 ^ 256 - 1)) (Some 2000) (Some 100000000) 50 34560].
+
+Lemma ht_refuted :
+  validate_ht ht_big = Ok
+  /\ ht_path ht_big (HtCreate 10 72339 1 2 61 (Some (0, 0, 0, 0)) 100000) = Some (Panic 318).
+Proof. repeat split; vm_compute; reflexivity. Qed.
 
 (** *** service *)
 Lemma validate_sv_facts p :
@@ -502,13 +514,16 @@ Lemma init_valid : ps_valid ps_init.
 Proof. exact defaults_validate_lemma. Qed.
 
 Lemma init_small : ps_small ps_init.
-Proof. repeat split; vm_compute; reflexivity. Qed.
+Proof.
+  split; [vm_compute; reflexivity|]. split; [vm_compute; reflexivity|]. split; [vm_compute; reflexivity|].
+  exact (Forall_nil _).
+Qed.
 
 Lemma step_keeps_small s st : step_wf st -> ps_small s -> ps_small (pstep_state s st).
 Proof.
-  intros Hwf (H1 & H2 & H3).
+  intros Hwf (H1 & H2 & H3 & H4).
   destruct st; simpl in *; unfold ps_small; simpl; repeat split; try assumption;
-    unfold update_cs, update_fm, update_tk; apply update_keeps; auto.
+    unfold update_cs, update_fm, update_tk, update_ht; apply update_keeps; auto.
 Qed.
 
 Lemma run_keeps_small h : forall s, Forall step_wf h -> ps_small s -> ps_small (run s h).
@@ -522,7 +537,7 @@ Qed.
 Lemma op_no_abort s st r :
   ps_valid s -> ps_small s -> step_wf st -> op_result s st = Some r -> res_outcome r <> Abort.
 Proof.
-  intros (V1 & V2 & V3 & V4 & V5) (S1 & S2 & S3) Hwf Hr.
+  intros (V1 & V2 & V3 & V4 & V5) (S1 & S2 & S3 & S4) Hwf Hr.
   destruct st; simpl in Hr; try discriminate Hr; simpl in Hwf.
   - eapply cs_no_panic; eassumption.
   - eapply fm_no_panic; eassumption.
